@@ -6,11 +6,14 @@
 //!   simcheck selftest <id> <quick|thorough> determinism self-test
 //!   simcheck worker <id> <seed> <lo> <hi> <tier>   (internal)
 //!   simcheck exec <id> <file>                      (internal)
+mod c02;
+mod c15;
 mod c16;
 mod c17;
 mod common;
 mod hostsim;
 mod pipeline;
+mod prog;
 mod rng;
 
 use std::path::PathBuf;
@@ -22,6 +25,8 @@ pub const DEFAULT_SEED: u64 = 20_260_925;
 
 fn engine(id: &str) -> &'static dyn Engine {
     match id {
+        "C02" => &c02::C02,
+        "C15" => &c15::C15,
         "C16" => &c16::C16,
         "C17" => &c17::C17,
         _ => {
